@@ -814,7 +814,7 @@ class Parser(object):
     def p_bitwise_and_expr_nobf(self, p):
         """bitwise_and_expr_nobf \
             : equality_expr_nobf
-            | bitwise_and_expr_nobf BAND equality_expr_nobf
+            | bitwise_and_expr_nobf BAND equality_expr
         """
         if len(p) == 2:
             p[0] = p[1]
@@ -848,7 +848,7 @@ class Parser(object):
         """
         bitwise_xor_expr_nobf \
             : bitwise_and_expr_nobf
-            | bitwise_xor_expr_nobf BXOR bitwise_and_expr_nobf
+            | bitwise_xor_expr_nobf BXOR bitwise_and_expr
         """
         if len(p) == 2:
             p[0] = p[1]
@@ -882,7 +882,7 @@ class Parser(object):
         """
         bitwise_or_expr_nobf \
             : bitwise_xor_expr_nobf
-            | bitwise_or_expr_nobf BOR bitwise_xor_expr_nobf
+            | bitwise_or_expr_nobf BOR bitwise_xor_expr
         """
         if len(p) == 2:
             p[0] = p[1]
@@ -915,7 +915,7 @@ class Parser(object):
     def p_logical_and_expr_nobf(self, p):
         """
         logical_and_expr_nobf : bitwise_or_expr_nobf
-                              | logical_and_expr_nobf AND bitwise_or_expr_nobf
+                              | logical_and_expr_nobf AND bitwise_or_expr
         """
         if len(p) == 2:
             p[0] = p[1]
@@ -945,7 +945,7 @@ class Parser(object):
 
     def p_logical_or_expr_nobf(self, p):
         """logical_or_expr_nobf : logical_and_expr_nobf
-                                | logical_or_expr_nobf OR logical_and_expr_nobf
+                                | logical_or_expr_nobf OR logical_and_expr
         """
         if len(p) == 2:
             p[0] = p[1]
